@@ -41,6 +41,8 @@ let run_b (imp : string) (inp : string) (obs : string) : string * string =
         | "revolut2" -> K.run_revolut2 (a "acct") (a "fee") its
         | "revolut" -> K.run_revolut (a "acct") its
         | "swissquote" -> K.run_swissquote (a "acct") (a "div") (a "int") (a "tax") (a "fee") (a "trading") its
+        | "interactivebrokers" ->
+          K.run_interactivebrokers (a "acct") (a "int") (a "div") (a "tax") (a "fee") (a "trading") its
         | "wise" -> K.run_wise wise_repaired (a "acct") (a "fee") (a "trading") its
         | _ -> failwith ("unknown importer " ^ imp)) in
   let (base, pr, rows) = split_observed obs in
@@ -58,4 +60,4 @@ let run_b (imp : string) (inp : string) (obs : string) : string * string =
 
 let () =
   List.iter (fun imp -> register ("C13." ^ imp) (run_b imp))
-    ["revolut2"; "revolut"; "wise"; "swissquote"]
+    ["revolut2"; "revolut"; "wise"; "swissquote"; "interactivebrokers"]
